@@ -7,7 +7,8 @@ def _cfg(rng, cfg):
 _orm.define(globals(), "C47", ("C47",), "autoflush",
             "deterministic simulation: seeded ORM session histories with autoflush on in which queries, Session.get of absent identities and "
             "lazy loads are issued while adds, modifications and deletes are pending; the result of each must equal what the session's own "
-            "transaction shows after an explicit flush (probe through the session's connection), and nothing pending may remain",
+            "transaction shows after an explicit flush (probe through the session's connection), and nothing pending may remain; a selectinload "
+            "query consumed as a stream (yield_per=1) with an object added between two batches: the next batch's loader query flushes it",
             "seeded search; query results are compared with rows probed on the session's connection right after the query, lazy-loaded "
             "collections with the FK / association rows.  Sampled.",
             "queries are whole-entity selects, get() and relationship lazy loads; autoflush=False histories belong to C30",
